@@ -256,4 +256,18 @@ def _routing(rep):
     return bool(res["rejected"]) or any(e.get("stray") for e in t[0])
 
 
-REPLAYERS = {"routing": _routing, "carrier_conv": _carrier_conv, "validate_case": _validate_case, "envelope_case": _envelope_case, "codec_value": _codec_value, "sse_script": _sse_script, "http_seq": _http_seq, "host_case": _host_case, "lifecycle": _lifecycle, "stdio_out": _stdio_out, "framing": _framing, "gate_script": _gate_script, "version_runs": _version_runs, "handshake": _handshake, "handshake_server": _handshake_server, "dispatch_case": _dispatch_case, "session_ops": _session_ops, "errorclass_case": _errorclass_case, "errorclass_sets": _errorclass_sets}
+def _raw_trace(rep):
+    """a recorded run the trace specification could not evaluate: shown as recorded (re-run the
+    check to see whether the tree still produces such runs)"""
+    print(json.dumps(rep["trace"], default=str)[:2000])
+    try:
+        validate.validate(rep["module"], [rep["trace"]], {}, work=os.path.join(tlc.WORK, "replay_raw"), jobs=1)
+    except validate.TraceEvalError:
+        return True
+    except Exception as e:
+        print("cannot be re-validated outside its check (%s); re-run the check" % type(e).__name__)
+        return True
+    return False
+
+
+REPLAYERS = {"raw_trace": _raw_trace, "routing": _routing, "carrier_conv": _carrier_conv, "validate_case": _validate_case, "envelope_case": _envelope_case, "codec_value": _codec_value, "sse_script": _sse_script, "http_seq": _http_seq, "host_case": _host_case, "lifecycle": _lifecycle, "stdio_out": _stdio_out, "framing": _framing, "gate_script": _gate_script, "version_runs": _version_runs, "handshake": _handshake, "handshake_server": _handshake_server, "dispatch_case": _dispatch_case, "session_ops": _session_ops, "errorclass_case": _errorclass_case, "errorclass_sets": _errorclass_sets}
